@@ -635,7 +635,8 @@ class Immutable(Sub):
 OPFORMS = ['xa+xb', 'xb-xa', 'xa*2', '1/xa', 'xa&"x"', 'xa=xb', 'xa<xb', '-xa', '{1,2}+xa', 'SUM(xa,xb)+COUNT(xa)',
            'LARGE(xa,1)', 'MEDIAN(xa)', 'INDEX(xa,1)', 'CONCATENATE(xa,xb)', 'TEXTJOIN(",",TRUE,xa,xb)', 'MATCH(2,xa,0)',
            'AND(xa)', 'xa', 'IF(TRUE,xa,xb)', 'IFERROR(xa,xb)', 'CHOOSE(1,xa,xb)', 'SUMIF(xa,">1")', 'MAXIFS(xa,xa,">0")',
-           'AVERAGEIF(xa,">0",xa)', 'SLOPE(xa,xb)', 'MODE(xa)', 'AVEDEV(xa)', 'SWITCH(1,1,xa,xb)']
+           'AVERAGEIF(xa,">0",xa)', 'SLOPE(xa,xb)', 'MODE(xa)', 'AVEDEV(xa)', 'SWITCH(1,1,xa,xb)',
+           'INDEX(xa,2,3)', 'INDEX(xa,2,2)', 'INDEX(xa,1,4)', 'xa*xb', 'xa/xb', 'xb+xa', 'MATCH(2,xa,1)', 'xa&xb', 'SUMIFS(xa,xa,">0")']
 
 
 OTHER = 'COUNT({9,8},{7;6})&CONCATENATE("q",{"r","s"})&LARGE({5,6},1)&AVEDEV(1,2,4)'
@@ -786,6 +787,58 @@ class ProcessState(Sub):
 
 
 
+class ResultAliasing(Sub):
+    name = 'c02.result_aliasing'
+    rule = ('for 24 formulas whose value is a list the library builds (array literals in the three separator styles, 2-D '
+            'literals, array arithmetic, INDEX of a whole row / column, IF / CHOOSE / IFERROR handing a literal array on): the host '
+            'mutates the result in place (reverse, append, clear, rows edited) and evaluates the same text again, on the same '
+            'parser and on another one: the second outcome equals the first (a result is the caller\'s to keep, not a view of a '
+            'cache); non-trivial = all')
+    min_cases = 20
+    min_nontrivial = 20
+    TEXTS = ['{3,1,2}', '{3;1;2}', '{3\\1\\2}', '{1,,2}', '{5,3;4,1}', '{"b","a"}', '{1,2}+1', '2*{1,2;3,4}', '{1,2}&"x"', 'INDEX({5,3;4,1},0,1)',
+             'INDEX({5,3;4,1},2,0)', 'IF(TRUE,{3,1,2},0)', 'CHOOSE(1,{3,1,2},{9})', 'IFERROR({3,1,2},0)', '{3,1,2}', ' {3,1,2}', '{ 3,1,2}',
+             '{1}', '{}', 'SWITCH(1,1,{3,1,2})', '{1,2}={1,2}', '-{1,2}', '{TRUE,FALSE}', 'IFS(TRUE,{3,1,2})']
+
+    def cases(self, tier, unit):
+        for i in range(len(self.TEXTS)):
+            for how in ('reverse', 'append', 'clear', 'rows'):
+                yield [i, how]
+
+    def check(self, env, case):
+        i, how = case
+        text = self.TEXTS[i]
+        env.nt()
+        p, q = env.new_parser(), env.new_parser()
+        r1 = p.parse(text)
+        first = env.out(r1)
+        env.evals += 3
+        v = r1.get('result') if isinstance(r1, dict) else None
+        if not isinstance(v, list):
+            env.note('not a list')
+            return None
+        if how == 'reverse':
+            v.reverse()
+        elif how == 'append':
+            v.append('host was here')
+        elif how == 'clear':
+            del v[:]
+        else:
+            for row in v:
+                if isinstance(row, list):
+                    row.append('host was here')
+            if v and not isinstance(v[0], list):
+                v[0] = 'host was here'
+        env.note(how)
+        for who, parser in (('the same parser', p), ('another parser', q)):
+            again = env.out(parser.parse(text))
+            if again != first:
+                return fail('%r evaluated to %r; after the host changed that result in place (%s) the same text evaluates to %r on %s' % (
+                    text, first, how, again, who), first, again)
+        return None
+
+
+
 SCALE_FORMULAS = ['#N/A', '1+', 'nosuchvar+A1', 'A1*B2+(', '1/0', 'SUM(A1:B2)+va', 'FBOOM(1)', 'FN(va)&A1', '"abc', 'NOSUCHFN(A1)']
 
 
@@ -824,4 +877,4 @@ class EvaluationScale(Sub):
         return None
 
 
-SUBS = [Histories(), Closure(), Retention(), Immutable(), ModuleState(), ProcessState(), EvaluationScale()]
+SUBS = [Histories(), Closure(), Retention(), Immutable(), ModuleState(), ProcessState(), ResultAliasing(), EvaluationScale()]
